@@ -26,6 +26,7 @@ class Case(object):
         self.S, self.cfg = S, cfg
         self.sched = sim.Schedule(prefix)
         self.net = sim.SimNet(self.peer)
+        self.net.late = cfg.get("wake_late", 0.0)
         self.net.on_recv = self.on_recv
         self.cmds = {}
         self.viol = []          # (clause, why)
@@ -258,6 +259,22 @@ def configs(tier):
                 pats.append([(0.25, SLOW)] + [(0, 0)] * (n - 1))
                 for p in pats:
                     out.append(("extras", {"n_tries": tries, "bursts": [{"window": w, "cmds": p}]}, LIGHT, D - 1))
+    # A4: the process is woken a little after its deadlines (scheduling latency), so that commands whose deadlines lie close
+    #     together - one with a long per-command timeout, one with the default - are found expired in the SAME turn of the loop:
+    #     a command that has been sent once next to one that has used up its tries
+    for tries in (2, 3):
+        for w in (2, 3):
+            # (the long deadline falls between the short command's last deadline - which has slipped by the latency of every
+            #  earlier wake-up - and the moment the process is woken for it)
+            for extra in ((tries - 1) * (T + 0.002) + 0.001, (tries - 1) * T - 0.001):
+                for order in (0, 1):
+                    cmds = [(extra, 0), (0, 0)] if order == 0 else [(0, 0), (extra, 0)]
+                    out.append(("late_wake", {"n_tries": tries, "wake_late": 0.002, "bursts": [{"window": w, "cmds": cmds + ([(0, 0)] if w == 3 else [])}]}, LIGHT, D - 1))
+    #     ... and a late "busy" reply read in the same batch as, and after, the OK reply to the retransmission
+    for n in (2, 3):
+        for tries in (2, 3):
+            out.append(("late_wake", {"n_tries": tries, "wake_late": 0.002, "bursts": [{"window": 1, "cmds": [(0, 0)] * n}]},
+                        [sim.OK, sim.RETRY8D_LATE, LOST, RETRY], D - 2))
     # B: two consecutive bursts on one connection, the schedule runs through both
     for n1 in (1, 2):
         for n2 in (1, 2):
@@ -474,7 +491,7 @@ def run(tier="quick", seed=0):
                     "schedule): one outcome per transmitted datagram from {ok, request lost, reply lost, reply late by 1.25 / 2.25 timeouts, reply "
                     "duplicated at once / duplicated late, rc 0x82, rc 0x8d, fatal rc}, lazily enumerated so that every schedule whose last fault is "
                     "actually reached runs exactly once (so all cases are distinct); configurations: bursts of 1-3 commands x window 1-2 x n_tries 1-3, "
-                    "send_scp, per-command extra timeouts and callbacks that keep the host busy 2.5 timeouts, two consecutive bursts on one connection "
+                    "send_scp, per-command extra timeouts and callbacks that keep the host busy 2.5 timeouts, a process woken 2 ms after its deadlines with a long-timeout command next to default ones (several deadlines found expired in one turn), two consecutive bursts on one connection "
                     "sharing one schedule, every fatal and retryable return code of the SCP specification as the reply to every position of a 1-3 command burst, the real 16-bit counter advanced to 65530 and 12 commands sent across its wrap, 3-bit sequence space (seqs(mask=7)) with 1-3 long-outstanding commands across a wrap; plus a seeded sample "
                     "at depth 9; and three controller configurations (n_tries, timeout, port) for which the initial connection and every connection made by the real discover_connections() on a simulated three-board machine must be constructed with exactly those values.  non-trivial = at least one fault outcome consumed (or a sequence wrap).  runs per family: %r" % (per_family,),
             "bound": ("quick: single bursts and send_scp to depth 5, extras and two bursts to depth 4 (two one-command bursts: 5), wrap family depth 2"
